@@ -195,6 +195,10 @@ func buildFamilies() []family {
 			sc, what := tryOffCase(i)
 			return kase{sc, "TRY|" + what, "TRY offsets " + what}
 		}},
+		{"endfin", 5 * 4 * 2, func(i int) kase {
+			sc, what := endfinCase(i)
+			return kase{sc, what, what}
+		}},
 		{"jmpoff", 16 * 9, func(i int) kase {
 			sc, what := jmpOffCase(i)
 			return kase{sc, "JMP|" + what, "jump offsets " + what}
@@ -207,7 +211,7 @@ func buildFamilies() []family {
 			sc, what := slotCase(i)
 			return kase{sc, what, what}
 		}},
-		{"limits", 3 * 98, func(i int) kase {
+		{"limits", 3*98 + 8 + 6, func(i int) kase {
 			sc, what := limitsCase(i)
 			return kase{sc, what, what}
 		}},
@@ -266,25 +270,15 @@ func (st *stats) add(k string, n int64) { st.obs[k] += n }
 func runCase(run *ev.Run, st *stats, fam string, idx int, k kase) {
 	id := fmt.Sprintf("%s:%d", fam, idx)
 	m := vmspec.New(k.script)
-	hugeRight := false
+	if strings.HasPrefix(k.cover, "recursion-depth") {
+		m.MaxSteps = 20000 // the invocation-depth cases need ~6 steps per level
+	}
 	for m.State == vmspec.Running {
 		m.Step()
 		st.ops[m.LastOp]++
 		if m.Tag != "" {
 			st.tags[m.Tag]++
-			if m.Tag == "right-count-ge-2^24" {
-				hugeRight = true
-			}
 		}
-	}
-	if hugeRight {
-		// The code under test allocates the requested count before validating
-		// it (vm.go RIGHT: make([]byte, l) precedes s[len(s)-l:]), i.e. up to
-		// 2 GiB per instruction; the outcome is FAULT on both sides, so these
-		// cases are not executed on the VM (16 workers would exhaust memory).
-		st.add("skipped:right-count-ge-2^24", 1)
-		run.Case("skipped|right-huge", false)
-		return
 	}
 	st.add(fam+"_cases", 1)
 	st.add("spec_steps", int64(m.Steps))
@@ -293,8 +287,6 @@ func runCase(run *ev.Run, st *stats, fam string, idx int, k kase) {
 		run.Case("discard|"+m.Reason, false)
 		return
 	}
-	input := map[string]any{"family": fam, "index": idx, "script": hex.EncodeToString(k.script)}
-	run.BeginCase(id, input)
 	r1 := runVM(k.script)
 	r2 := runVM(k.script)
 	st.add("vm_runs", 2)
